@@ -131,25 +131,6 @@ void hk_wait4(pid_t arg, int options, pid_t ret, int status)
  * unrelated SIGCHLD will make it look again.  The picture has to last 200 ms of real time (the kernel makes a stop
  * waitable a moment before it notifies the parent) before it is reported and the action is written off.
  */
-int __real_clock_gettime(clockid_t, struct timespec *);
-static int sigchld_pending(void)
-{
-	char buf[2048], *p;
-	int fd = open("/proc/self/status", O_RDONLY), n;
-	unsigned long long shd = ~0ULL;
-	if (fd < 0)
-		return 1;
-	n = (int)__real_read(fd, buf, sizeof(buf) - 1);
-	__real_close(fd);
-	if (n <= 0)
-		return 1;
-	buf[n] = 0;
-	p = strstr(buf, "ShdPnd:");
-	if (p != NULL)
-		shd = strtoull(p + 7, NULL, 16);
-	return (shd >> (SIGCHLD - 1)) & 1;
-}
-
 void hk_ext_stuck(void)
 {
 	int i, n = nch;
@@ -164,7 +145,7 @@ void hk_ext_stuck(void)
 		if (c->pid <= 0 || atomic_load(&c->outstanding) <= 0)
 			continue;
 		memset(&si, 0, sizeof(si));
-		if (waitid(P_PID, (id_t)c->pid, &si, WNOHANG | WNOWAIT | WEXITED | WSTOPPED | WCONTINUED) != 0 || si.si_pid != c->pid || sigchld_pending()) {
+		if (waitid(P_PID, (id_t)c->pid, &si, WNOHANG | WNOWAIT | WEXITED | WSTOPPED | WCONTINUED) != 0 || si.si_pid != c->pid || mt_sigchld_pending()) {
 			c->stuck_since = 0;
 			continue;
 		}
